@@ -274,6 +274,16 @@ def gen(tier, r):
         if cases[-1]['variant'] == 'key' and i % 8 == 5:
             # one account used on every endpoint: its key roll-over reaches the endpoints one after the other
             cases[-1].update(n_accs=1, acc_of=[0] * n, n_cas=max(2, n_cas), ca_of=[k % max(2, n_cas) for k in range(n)])
+    # the interleaving in which one certificate is parked on the account lock while a sibling re-creates the account shows up in about
+    # one such scenario out of three: a dozen more of them (two dozen in the thorough tier) beyond those of the rotation above
+    for j in range(12 if tier == 'quick' else 24):
+        i = n_cases + j
+        nn = r.randint(3, 6)
+        nc = r.randint(2, 3)
+        cases.append({'i': i, 'n': nn, 'n_accs': 1, 'n_cas': nc, 'acc_of': [0] * nn, 'ca_of': [k % nc for k in range(nn)],
+                      'workers': [1, 2, 4, 16][j % 4], 'max_delay': r.choice([0, 10, 30]), 'hook_hold': r.choice([0, 2, 10]),
+                      'variant': 'forget-twice', 'rounds': 2, 'nonce_on_get': bool(j % 2), 'forgets': r.randint(2, 6),
+                      'spike': [r.choice([10, 20, 35]), 150, r.choice([400, 800])]})
     return cases
 
 
